@@ -1,6 +1,7 @@
 """C17 - the network graph holds only authentic, current gossip (structural part)."""
 import re
 from engine import *
+import linforms
 import ordimpls
 import provenance
 import parsepos
@@ -754,3 +755,4 @@ RULES.append(('17.G', 'guard census: no reviewed call of a workspace function an
 RULES.append(('17.I', 'parse-position independence: in every function reading from a reader, no stream read is skipped under a condition computed from local state (self, another argument) while parsing goes on - a skipped incremental update in a rapid-gossip-sync snapshot still consumes its fields (rules/parsepos.py)', lambda F: parsepos.rule(F, '17.I', lambda n, r: re.search(r'lightning-rapid-gossip-sync/|routing/gossip\\.rs$', r['file']) is not None and 'ser_macros' not in r['file'], 1, 30)))
 RULES.append(('17.W', 'field assignments: every reviewed (function, Type.field) direct assignment is still made - state that a path no longer updates, or updates only conditionally (get_or_insert for an overwrite); generalises NN.R (rules/writes.py)', lambda F: writes.for_property(F, 'C17', '17.W')))
 RULES.append(('17.N', 'arithmetic census: per reviewed function the set of operation kinds (group: add/sub, mul, div, rem, shift, bit, min, max, div_ceil ...; flavour: plain / checked / saturating / wrapping) keeps its kinds: no reviewed function lost or gained a kind of arithmetic altogether - a rounding direction (`/` for div_ceil), saturating for checked, min for max (rules/arith.py; counts and value arithmetic itself are not judged)', lambda F: arith.for_property(F, 'C17', '17.N')))
+RULES.append(('17.K', 'constant census of linear forms: every comparison (normalised to sum >= K over name-free atoms, a comparison and its negation being one form) and every maximal arithmetic expression of a reviewed function keeps its coefficients and its constant - a dropped or added `+ 1` / `- 1`, `<` for `<=` inside a computed bound, a scale factor applied twice or not at all, swapped operands of a comparison (rules/linforms.py; shapes that appear or disappear are not judged, the guard / arithmetic censuses judge those)', lambda F: linforms.for_property(F, 'C17', '17.K')))
